@@ -182,7 +182,8 @@ func run(in input, em *lib.Emitter, id string) {
 	start := time.Now()
 	var batches []string
 	var outs [][]string
-	concurrentDup, collision, panicked := false, false, false
+	concurrentDup, collision, nearCollision, panicked := false, false, false, false
+	var all []delivery
 	kinds := map[string]bool{}
 	oldKeys := map[string]string{}
 	nDeliveries := 0
@@ -206,6 +207,7 @@ func run(in input, em *lib.Emitter, id string) {
 				collision = true
 			}
 			oldKeys[d.oldKey()] = d.id()
+			all = append(all, d)
 			key := "None"
 			if d.Kind == "result" {
 				key = fmt.Sprintf("(Some \"%s\"%%string)",
@@ -238,6 +240,27 @@ func run(in input, em *lib.Emitter, id string) {
 	if panicked {
 		em.Tally("panic")
 	}
+	// near-collision: two different events of one kind that differ in a single digit of a single
+	// field (or by one digit added / removed at an end of it)
+	{
+		seenID := map[string]bool{}
+		var uniq []delivery
+		for _, d := range all {
+			if !seenID[d.id()] {
+				seenID[d.id()] = true
+				uniq = append(uniq, d)
+			}
+		}
+	outer:
+		for i := range uniq {
+			for j := i + 1; j < len(uniq); j++ {
+				if near(uniq[i], uniq[j]) {
+					nearCollision = true
+					break outer
+				}
+			}
+		}
+	}
 	var ks []string
 	for k := range kinds {
 		ks = append(ks, k)
@@ -247,20 +270,27 @@ func run(in input, em *lib.Emitter, id string) {
 	for i, s := range spans {
 		sp[i] = lib.Z(s)
 	}
-	em.Tally(fmt.Sprintf("deliveries-%02d", (nDeliveries+4)/5*5))
+	if nDeliveries <= 30 {
+		em.Tally(fmt.Sprintf("deliveries-%02d", (nDeliveries+4)/5*5))
+	} else {
+		em.Tally("deliveries-31+")
+	}
 	if concurrentDup {
 		em.Tally("concurrent-duplicate")
 	}
 	if collision {
 		em.Tally("old-key-collision")
 	}
+	if nearCollision {
+		em.Tally("near-collision")
+	}
 	em.Case(lib.Case{
 		ID:         id,
 		Coq:        fmt.Sprintf("{| c_spans := %s; c_panic := %s; c_hist := %s |}", lib.List(sp), lib.Bool(panicked), lib.List(batches)),
 		Key:        fmt.Sprintf("%d|%v", in.PeriodMs, in.Batches),
-		Nontrivial: concurrentDup || collision,
+		Nontrivial: concurrentDup || collision || nearCollision,
 		Sig: map[string]interface{}{"kinds": strings.Join(ks, ","), "concurrent_duplicate": concurrentDup,
-			"old_key_collision": collision, "expiry": in.PeriodMs > 0},
+			"old_key_collision": collision, "near_collision": nearCollision, "expiry": in.PeriodMs > 0},
 		In:  in,
 		Out: outs,
 	})
@@ -388,6 +418,40 @@ func main() {
 		run(input{p, []batch{one(closed), {[]delivery{closed}, true}, one(closed)}}, em, "corpus-expiry-closed")
 	}
 
+	{
+		// near-collisions: two events that differ in one digit at an end of one field (the last
+		// hex digit of the result hash next to the separator, the first one, the last seed digit,
+		// the first / last block digit, the last digit of a wallet ID); 0xab / 0x0ab / 0xab0
+		nz := "9f3a5c0e7d1b2a4968f7e6d5c4b3a291807f6e5d4c3b2a1908f7e6d5c4b3a2f"
+		h := "0718293a4b5c6d7e8fa0b1c2d3e4f5061728394a5b6c7d8e9fb0c1d2e3f405a"
+		res := func(seedHex, hash string, block uint64) delivery {
+			return delivery{Kind: "result", Seed: seedFromHex(seedHex), Hash: hash, Block: block}
+		}
+		a := res(nz+"1", h+"3", 19876543)
+		run(input{0, []batch{one(a), one(res(nz+"1", h+"4", 19876543)), one(a), one(res(nz+"1", h+"4", 19876543))}}, em, "corpus-near-hash-last-digit")
+		run(input{0, []batch{one(a), one(res(nz+"1", "1"+h[1:]+"3", 19876543)), one(res(nz+"2", h+"3", 19876543)),
+			one(res("8"+nz[1:]+"1", h+"3", 19876543)), one(res(nz+"1", h+"3", 19876544)), one(res(nz+"1", h+"3", 29876543)), one(a)}}, em, "corpus-near-field-ends")
+		run(input{0, []batch{one(a, res(nz+"1", h+"4", 19876543), res(nz+"1", h+"5", 19876543), a, res(nz+"1", h+"4", 19876543))}}, em, "corpus-near-hash-last-digit-concurrent")
+		ab, ab0, a_, b_ := res("ab", h+"3", 7), res("ab0", h+"3", 7), res("a", h+"3", 7), res("b", h+"3", 7)
+		run(input{0, []batch{one(ab), one(res("0ab", h+"3", 7)), one(ab0), one(a_), one(b_), one(res("-ab", h+"3", 7)), one(ab), one(ab0)}}, em, "corpus-near-seed-length")
+		sab, sab0 := delivery{Kind: "started", Seed: seedFromHex("ab")}, delivery{Kind: "started", Seed: seedFromHex("ab0")}
+		bab, bab0 := delivery{Kind: "beacon", Seed: seedFromHex("ab")}, delivery{Kind: "beacon", Seed: seedFromHex("ab0")}
+		run(input{0, []batch{one(sab), one(sab0), one(bab), one(bab0), one(delivery{Kind: "started", Seed: seedFromHex("0ab")}),
+			one(delivery{Kind: "beacon", Seed: seedFromHex("aa")}), one(delivery{Kind: "started", Seed: seedFromHex("bb")}), one(sab, sab0, bab, bab0)}}, em, "corpus-near-started-seed-length")
+		w := delivery{Kind: "closed", Hash: h + "3"}
+		run(input{0, []batch{one(w), one(delivery{Kind: "closed", Hash: h + "2"}), one(delivery{Kind: "closed", Hash: "1" + h[1:] + "3"}), one(w)}}, em, "corpus-near-wallet-id")
+	}
+
+	// --- near-collision sweeps: every hex digit of the seed, of the result hash and of the
+	// wallet ID, every decimal digit and every bit of the block, the length changes of seed and
+	// block — for one random full-size base event per kind (exhaustive over the positions) and
+	// one base with short or extreme fields
+	nearFamilies(rng, em, "full", 0, 20, true)
+	nearFamilies(rng, em, "small", 1+int(o.Seed%2), 20, o.Tier != "quick")
+	for i := 0; i < o.Count(0, 6); i++ {
+		nearFamilies(rng, em, fmt.Sprintf("t%d", i), i%3, 20, true)
+	}
+
 	// --- small-scope exhaustive: every way of cutting one digit string into seed|hash|block
 	nFam := o.Count(12, 120)
 	for i := 0; i < nFam; i++ {
@@ -454,6 +518,7 @@ func main() {
 	}
 	em.Close("a case is one history of event deliveries (batches of concurrent deliveries, overlap forced at the "+
 		"yield point inside the notify functions) against fresh tbtc and beacon deduplicators; distinct by the "+
-		"whole history; non-trivial when a batch delivers the same event concurrently at least twice or the history "+
-		"contains two distinct events whose pre-fix cache keys coincide", nil)
+		"whole history; non-trivial when a batch delivers the same event concurrently at least twice, or the history "+
+		"contains two distinct events whose pre-fix cache keys coincide, or it contains two distinct events of one kind "+
+		"that differ in a single digit of a single field (near-collision)", nil)
 }
